@@ -572,7 +572,7 @@ def sem_check(ctx, B, kind, line_head, args, what, rp):
                 ctx.count("sem:skipped")
             else:
                 ctx.count("sem:same")
-        B.ask([line_head] + args + [spec, ctx.scale(60, 400), ctx.seed * 7919 + si, 400], cb)
+        B.ask([line_head] + args + [spec, ctx.scale(60, 150), ctx.seed * 7919 + si, 400], cb)
 
 
 def type_of(t):
@@ -839,7 +839,7 @@ def subst_case(ctx, B, rng, dg):
 def stream_ops(ctx):
     rng = ctx.rng("ops")
     B = Batch(ctx, "a")
-    n = ctx.scale(220, 5000)
+    n = ctx.scale(220, 3000)
     dg = DagGen(rng)
     for i in range(n):
         if i % 40 == 0:
